@@ -71,9 +71,10 @@ def judge(ctx, gname, g, m, host_l, ins_l, methods, maxsol, graph=None):
     ctx.count("calls")
     wit = {"grammar": g, "host": to_list(host), "insert": to_list(ins), "methods": methods, "max": maxsol, "dash_O": ctx.optimized}
     st, res = ctx.guarded(lambda: list(insert_tree(canonical(g), ins, host, graph=graph, max_num_solutions=maxsol, methods=methods)), timeout=20)
-    if st == "exc" and isinstance(res, AssertionError):
+    if st == "exc" and not isinstance(res, RecursionError):
         tb = traceback.extract_tb(res.__traceback__)
-        if tb and tb[-1].filename.endswith("existential_helpers.py") and "tree_is_valid" in (tb[-1].line or ""):
+        # ISLa's own validity check fired: either its assert, or grammar_graph raising while the assert's argument is computed
+        if any(fr.filename.endswith("existential_helpers.py") and "tree_is_valid" in (fr.line or "") for fr in tb):
             # ISLa's own validity assert fired. Decide with R1 whether the candidate really is invalid: repeat the call with
             # that assert neutralised (what python -O does) and judge what is returned.
             ctx.count("own_validity_assert_fired")
